@@ -1,6 +1,7 @@
 package fr
 
 import (
+	"time"
 	"crypto/sha256"
 	"encoding/hex"
 	"fmt"
@@ -53,6 +54,7 @@ type Step struct {
 	Hooks []HookCall      `json:"hooks"`
 	Extra Extra           `json:"extra"`
 	Ev    []EventJ        `json:"ev"`
+	Evm   []map[string]any `json:"evm"` // module events in model terms
 	Rep   int             `json:"rep"` // replica number (C14), 1-based
 	Len   int             `json:"len"` // lines per replica
 	Judge bool            `json:"judge"` // false: the monitor only threads its ghost state through this step
@@ -191,7 +193,7 @@ func (e *Env) deliverLocal(ctx sdk.Context, msg sdk.Msg) error {
 
 // Exec executes one input on the behaviour's committed context and returns the trace line.
 func (e *Env) Exec(a Action, raw map[string]any) (st Step) {
-	st = Step{Act: raw, Xfers: []Xfer{}, Hooks: []HookCall{}, Extra: Extra{ValidateOk: true, Answer: []any{}}, Ev: []EventJ{}, Rep: 1, Judge: true}
+	st = Step{Act: raw, Xfers: []Xfer{}, Hooks: []HookCall{}, Extra: Extra{ValidateOk: true, Answer: []any{}}, Ev: []EventJ{}, Evm: []map[string]any{}, Rep: 1, Judge: true}
 	em := sdk.NewEventManager()
 	ctx := e.Ctx.WithEventManager(em)
 	e.HookLog = nil
@@ -276,6 +278,7 @@ func (e *Env) Exec(a Action, raw map[string]any) (st Step) {
 	if st.Res.Ok {
 		st.Xfers = e.xfers(em.Events())
 		st.Ev = moduleEvents(em.Events())
+		st.Evm = e.modelEvents(st.Ev)
 	}
 	if e.Digests {
 		st.Extra.EvHash = eventsDigest(em.Events())
@@ -543,4 +546,96 @@ func (e *Env) query(ctx sdk.Context, a Action) ([]any, error) {
 		return out, fmt.Errorf("unknown query %q", a.Q)
 	}
 	return out, nil
+}
+
+// modelEvents converts the module's own events into the records of the specification's EventsOf.
+func (e *Env) modelEvents(evs []EventJ) []map[string]any {
+	out := []map[string]any{}
+	status := map[string]string{"AUCTION_STATUS_STANDBY": "StandBy", "AUCTION_STATUS_STARTED": "Started", "AUCTION_STATUS_VESTING": "Vesting",
+		"AUCTION_STATUS_FINISHED": "Finished", "AUCTION_STATUS_CANCELLED": "Cancelled"}
+	num := func(s string) any {
+		var n int64
+		if _, err := fmt.Sscanf(s, "%d", &n); err != nil {
+			return s
+		}
+		return n
+	}
+	dec := func(s string) any {
+		d, err := sdkmath.LegacyNewDecFromStr(s)
+		if err != nil {
+			return s
+		}
+		return e.DecNum(d)
+	}
+	tick := func(s string) any {
+		t, err := time.Parse("2006-01-02 15:04:05 -0700 MST", s)
+		if err != nil {
+			return s
+		}
+		return TimeTick(t)
+	}
+	for _, ev := range evs {
+		switch ev.Type {
+		case "create_fixed_price_auction", "create_batch_auction", "cancel_auction", "place_bid":
+		default:
+			continue
+		}
+		m := map[string]any{"type": ev.Type}
+		for _, kv := range ev.Attrs {
+			k, v := kv[0], kv[1]
+			switch k {
+			case "auction_id":
+				m["id"] = num(v)
+			case "auctioneer_address", "bidder_address":
+				m["by"] = e.name(v)
+			case "selling_pool_address":
+				m["sell"] = e.name(v)
+			case "paying_pool_address":
+				m["pay"] = e.name(v)
+			case "vesting_pool_address":
+				m["vest"] = e.name(v)
+			case "start_price":
+				m["price"] = dec(v)
+			case "bid_price":
+				m["price"] = dec(v)
+			case "min_bid_price":
+				m["minPrice"] = dec(v)
+			case "extended_round_rate":
+				m["rate"] = dec(v)
+			case "maximum_extended_round":
+				m["maxExt"] = num(v)
+			case "selling_coin", "remaining_selling_coin", "bid_coin":
+				c, err := sdk.ParseCoinNormalized(v)
+				if err != nil {
+					m[k] = v
+					continue
+				}
+				switch k {
+				case "selling_coin":
+					m["sellDenom"], m["sellAmt"] = ModelDenom(c.Denom), c.Amount.Int64()
+				case "remaining_selling_coin":
+					m["remaining"] = c.Amount.Int64()
+				case "bid_coin":
+					m["denom"], m["amt"] = ModelDenom(c.Denom), c.Amount.Int64()
+				}
+			case "paying_coin_denom":
+				m["payDenom"] = ModelDenom(v)
+			case "start_time":
+				m["start"] = tick(v)
+			case "end_time":
+				m["end"] = tick(v)
+			case "auction_status":
+				if s, ok := status[v]; ok {
+					m["status"] = s
+				} else {
+					m["status"] = v
+				}
+			case "msg_index", "mode":
+			default:
+				m[k] = v
+			}
+		}
+		out = append(out, m)
+	}
+	return out
 }
